@@ -23,6 +23,13 @@ INITIALLY_MISSED = {  # seeded change -> what the check lacked (strengthening do
  "C01-4": "ver_cmp called with plain-str / mixed / '' revisions (its documented signature) besides Revision objects added to C01",
  "C41-3": "two-call histories (an earlier call whose input raises while being fed, then the judged call) added to C41; module state reloaded per execution so executions stay independent",
  "C44-3": "single-'*' tokens with overlapping prefix/suffix ('a*a', 'ab*ba', '1.*.1') and values shorter than prefix+suffix in every glob position added to C44",
+ "C03-3": "parse histories (same text under EAPI e1 then e2, all ordered pairs) added to C03; single-parse candidates carry the worker's earlier EAPI settings for that text so they reproduce",
+ "C03-4": "every numbered EAPI up to the newest known one (9) passed explicitly for every gate added to C03",
+ "C38-4": "'*' lines naming the same cat/pkg-ver under different operator/slot/sub-slot (both orders) and an atom-dependent suggestion function added to C38",
+ "C40-4": "non-exact specs matching exactly one version (ranges, ~ver, =ver*, single-version packages) under stable=True added to C40",
+ "C45-3": "eq globs with a revision in the base (1.2-r1*, 1-r1*) as vulnerable and unaffected ranges added to C45",
+ "C45-4": "advisories with an untranslatable <package> entry first / in the middle / last next to ordinary entries added to C45",
+ "C46-3": "installed side is a real repository object (SimpleTree) instead of a list (the seeded change crashed the harness: rc=2)",
  "C03-1": "glob atoms with explicit -r0/-r0N revisions + wider match universe added to C03",
  "C03-2": "multi-flag USE lists with a default on a non-last flag added to C03",
  "C04-2": "atom slot form with sub-slot equal to slot (:0/0) added to C04 quick",
